@@ -7,7 +7,6 @@ package c16
 import (
 	"bytes"
 	"crypto/tls"
-	"math/rand"
 	"os"
 	"runtime"
 	"encoding/json"
@@ -214,6 +213,10 @@ func (s *session) close() {
 	for _, l := range s.held {
 		l.Close()
 	}
+	for _, p := range s.ports {
+		releasePort(p)
+	}
+	releasePort(s.r.Port)
 	if s.alice != nil {
 		s.alice.Close()
 	}
@@ -754,22 +757,18 @@ func newTSClient() *http.Client {
 		TLSClientConfig: &tls.Config{InsecureSkipVerify: true}, MaxIdleConnsPerHost: 2}}
 }
 
-// pickPort returns a port outside the ephemeral range that is free right now (listeners
-// of 16 parallel workers must not land on each other's ports).
-func pickPort() int {
-	for i := 0; i < 200; i++ {
-		p := 10000 + portRng.Intn(22000)
-		l, err := net.Listen("tcp", fmt.Sprintf("127.0.0.1:%d", p))
-		if err != nil {
-			continue
-		}
-		l.Close()
-		return p
-	}
-	return rig.FreePort()
-}
+// pickPort: every port the harness hands to a listener comes from rig.FreePort (ports
+// below the ephemeral range, claimed across worker processes).
+func pickPort() int { return rig.FreePort() }
 
-var portRng = rand.New(rand.NewSource(time.Now().UnixNano() ^ int64(os.Getpid())<<20))
+// releasePort gives a claim back once nothing of ours is going to bind the port any
+// more (FreePort still verifies by listening, so a port that a retired rig keeps bound
+// in this process is simply skipped by whoever draws it next).
+func releasePort(p int) {
+	if p > 0 {
+		os.Remove(fmt.Sprintf("/dev/shm/verifports/%d", p))
+	}
+}
 
 func postEndpoint(hc *http.Client, port int, endpoint string, body []byte) (int, string) {
 	req, err := http.NewRequest(http.MethodPost, fmt.Sprintf("https://127.0.0.1:%d/%s", port, endpoint), bytes.NewReader(body))
@@ -842,7 +841,7 @@ func (s *session) checkViews(fresh bool) {
 	// (2) persisted rows
 	db, dups, err := dbNames(s.r.Dir + "/data/teamserver.db")
 	if err != nil {
-		s.c.Inconclusive("TS_Listeners could not be read: " + err.Error())
+		inconclusive(s.c, "TS_Listeners could not be read: " + err.Error())
 	} else {
 		if len(dups) > 0 {
 			s.find("dup-row", fmt.Sprintf("TS_Listeners holds several rows for %v", dups), nil)
@@ -901,7 +900,7 @@ func (s *session) checkViews(fresh bool) {
 		st, body := s.postTS(ep)
 		routed := !(st == refSt && body == refBody)
 		if st == 0 || refSt == 0 {
-			s.c.Inconclusive("teamserver port did not answer an endpoint probe: " + body + refBody)
+			inconclusive(s.c, "teamserver port did not answer an endpoint probe: " + body + refBody)
 			continue
 		}
 		s.c.Observe("endpoint-probes", 1)
